@@ -6087,7 +6087,7 @@ class CodegenCtx:
             transition_body.add("// terminating state")
         target_overriden = False
         needs_early_advance = any(x.may_return_early() for x in transition.actions)
-        immediate_done = transition.target in self.dfa.accepting_states and not ProgramData.do(ProgramFlag.STRICT_DONE_TOKEN_GENERATION) and all(x.error_handling for x in transition.target.transitions)
+        immediate_done = transition.target in self.dfa.accepting_states and not ProgramData.do(ProgramFlag.STRICT_DONE_TOKEN_GENERATION) and all(x.error_handling and x.is_fallthrough for x in transition.target.transitions)
         early_advanced = needs_early_advance and not from_end and not transition.is_fallthrough and not immediate_done
         if early_advanced:
             if ProgramData.do(ProgramFlag.INDIRECT_START_PTR):
